@@ -9,7 +9,7 @@ def check(run):
     run.prove(_tree_theorems.C15)
     rng = run.rng
     quick = run.tier == "quick"
-    nseq = 60 if quick else 600
+    nseq = 120 if quick else 1200
     kinds = ["set", "set", "del", "del", "app", "app", "range", "batch"]
 
     def extra(rng, cap, depth):
